@@ -34,10 +34,13 @@ Record node := Node {
   commit : N;
   in_prevote : bool;
   prevotes : list N;
-  lvs : option lvol
+  lvs : option lvol;
+  fin : N;                   (* finalized_height (set by the application through finalize_to) *)
+  base : N                   (* log_base_index: how many entries compaction has dropped from the front of the log.
+                                The model keeps the whole log; the implementation's array is skipn base log. *)
 }.
 
-Definition init_node : node := Node 0 None Follower [] [] 0 false [] None.
+Definition init_node : node := Node 0 None Follower [] [] 0 false [] None 0 0.
 
 Inductive msg :=
 | RV (t cand lli llt : N)
@@ -52,7 +55,8 @@ Record config := Cfg {
   n_nodes : N;              (* node ids 0 .. n-1; every node's peers = all the others, ascending *)
   quorum : N;
   adaptive_backoff : bool;
-  max_backoff_power : N
+  max_backoff_power : N;
+  trailing : N              (* snapshot_trailing_logs *)
 }.
 
 (* the rules regenerated from the source *)
@@ -63,7 +67,9 @@ Record rules := Rules {
   vote_log_ok : N -> N -> N -> N -> bool -> bool; (* cand last idx, cand last term, my last idx, my last term, tie-break -> log_ok *)
   prev_ok : N -> N -> bool;                       (* term of my entry at prev_log_index, prev_log_term *)
   commit_pick : N -> N -> N;                      (* |sorted match list|, quorum -> position picked *)
-  commit_term_ok : N -> N -> bool                 (* term of the entry at the new commit index, current term *)
+  commit_term_ok : N -> N -> bool;                (* term of the entry at the new commit index, current term *)
+  entries_need_prev : bool;                       (* get_entries_for_follower sends entries only with a prev entry still in the log *)
+  gap_refused : bool                              (* append_leader_entries refuses an entry that is not the direct successor of the log *)
 }.
 
 Definition last_info (l : list entry) : N * N :=
@@ -84,13 +90,13 @@ Variable ru : rules.
 Definition peers_of (self : N) : list N := filter (fun j => negb (N.eqb j self)) (N_seq (n_nodes cfg)).
 
 Definition set_term_vote (nd : node) (t : N) (v : option N) (r : role) : node :=
-  Node t v r (votes nd) (log nd) (commit nd) (in_prevote nd) (prevotes nd) (lvs nd).
+  Node t v r (votes nd) (log nd) (commit nd) (in_prevote nd) (prevotes nd) (lvs nd) (fin nd) (base nd).
 Definition step_down (nd : node) (t : N) : node := set_term_vote nd t None Follower.
 
 (* ---------------- elections ---------------- *)
 (* start_election: term+1, vote for self, Candidate, votes = [self] *)
 Definition start_election (self : N) (nd : node) : node :=
-  Node (term nd + 1) (Some self) Candidate [self] (log nd) (commit nd) (in_prevote nd) (prevotes nd) (lvs nd).
+  Node (term nd + 1) (Some self) Candidate [self] (log nd) (commit nd) (in_prevote nd) (prevotes nd) (lvs nd) (fin nd) (base nd).
 (* the RequestVote a candidate broadcasts (start_election_async) *)
 Definition rv_msgs (self : N) (nd : node) : list (N * msg) :=
   let '(lli, llt) := last_info (log nd) in
@@ -98,7 +104,7 @@ Definition rv_msgs (self : N) (nd : node) : list (N * msg) :=
 
 (* start_pre_vote: in_pre_vote := true, pre_votes := [self]; PreVote carries the CURRENT term *)
 Definition start_pre_vote (self : N) (nd : node) : node :=
-  Node (term nd) (voted nd) (rl nd) (votes nd) (log nd) (commit nd) true [self] (lvs nd).
+  Node (term nd) (voted nd) (rl nd) (votes nd) (log nd) (commit nd) true [self] (lvs nd) (fin nd) (base nd).
 Definition pv_msgs (self : N) (nd : node) : list (N * msg) :=
   let '(lli, llt) := last_info (log nd) in
   map (fun p => (p, PV (term nd) self lli llt)) (peers_of self).
@@ -108,7 +114,7 @@ Definition become_leader (self : N) (nd : node) : node :=
   let lli := fst (last_info (log nd)) in
   let ps := peers_of self in
   Node (term nd) (voted nd) Leader (votes nd) (log nd) (commit nd) (in_prevote nd) (prevotes nd)
-       (Some (LV (map (fun p => (p, lli + 1)) ps) (map (fun p => (p, 0)) ps) [])).
+       (Some (LV (map (fun p => (p, lli + 1)) ps) (map (fun p => (p, 0)) ps) [])) (fin nd) (base nd).
 
 (* handle_request_vote; `ok` = candidate_healthy && geometric_ok (can only refuse) *)
 Definition h_rv (self : N) (nd : node) (t cand lli llt : N) (ok : bool) : node * msg :=
@@ -128,7 +134,7 @@ Definition h_rvr (self : N) (nd : node) (from t : N) (g : bool) : node :=
       if N.ltb (term nd) t then step_down nd t
       else if g && N.eqb t (term nd) && negb (memb from (votes nd)) then
         let vs := votes nd ++ [from] in
-        let nd' := Node (term nd) (voted nd) (rl nd) vs (log nd) (commit nd) (in_prevote nd) (prevotes nd) (lvs nd) in
+        let nd' := Node (term nd) (voted nd) (rl nd) vs (log nd) (commit nd) (in_prevote nd) (prevotes nd) (lvs nd) (fin nd) (base nd) in
         if N.leb (quorum cfg) (llen vs) then become_leader self nd' else nd'
       else nd
   | _ => nd
@@ -145,28 +151,46 @@ Definition h_pvr (self : N) (nd : node) (from t : N) (g : bool) : node :=
   if negb (in_prevote nd) then nd
   else if N.ltb (term nd) t then
     let nd1 := step_down nd t in
-    Node (term nd1) (voted nd1) (rl nd1) (votes nd1) (log nd1) (commit nd1) false (prevotes nd1) (lvs nd1)
+    Node (term nd1) (voted nd1) (rl nd1) (votes nd1) (log nd1) (commit nd1) false (prevotes nd1) (lvs nd1) (fin nd1) (base nd1)
   else if g && N.eqb t (term nd) && negb (memb from (prevotes nd)) then
     let pvs := prevotes nd ++ [from] in
     if N.leb (quorum cfg) (llen pvs) then
-      start_election self (Node (term nd) (voted nd) (rl nd) (votes nd) (log nd) (commit nd) false pvs (lvs nd))
-    else Node (term nd) (voted nd) (rl nd) (votes nd) (log nd) (commit nd) true pvs (lvs nd)
+      start_election self (Node (term nd) (voted nd) (rl nd) (votes nd) (log nd) (commit nd) false pvs (lvs nd) (fin nd) (base nd))
+    else Node (term nd) (voted nd) (rl nd) (votes nd) (log nd) (commit nd) true pvs (lvs nd) (fin nd) (base nd)
   else nd.
 
 (* ---------------- replication ---------------- *)
-(* append_leader_entries *)
-Fixpoint append_entries (es : list entry) (l : list entry) : list entry :=
+(* log_index_to_array_index + bounds check: the entry at log index i, unless it was compacted away *)
+Definition lookup (b : N) (l : list entry) (i : N) : option entry :=
+  if N.leb i b then None else nth_entry l i.
+
+(* append_leader_entries (b = log_base_index).  An entry beyond the end is pushed only if it is the direct
+   successor of the log (otherwise the loop stops and reports failure); an entry inside the log that was
+   compacted away is skipped; a conflicting entry truncates the log from there. *)
+Fixpoint append_entries (g : bool) (b : N) (es : list entry) (l : list entry) : list entry :=
   match es with
   | [] => l
   | e :: r =>
-      let l' :=
-        if N.ltb (llen l) (eidx e) then l ++ [e]
-        else match nth_entry l (eidx e) with
-             | Some x => if N.eqb (eterm x) (eterm e) then l
-                         else firstn (N.to_nat (eidx e - 1)) l ++ [e]
-             | None => l
-             end in
-      append_entries r l'
+      if N.ltb (llen l) (eidx e) then
+        (if N.eqb (eidx e) (llen l + 1) || negb g then append_entries g b r (l ++ [e]) else l)
+      else match lookup b l (eidx e) with
+           | Some x => if N.eqb (eterm x) (eterm e) then append_entries g b r l
+                       else append_entries g b r (firstn (N.to_nat (eidx e - 1)) l ++ [e])
+           | None => append_entries g b r l
+           end
+  end.
+(* its Boolean result (WAL failures are outside the model) *)
+Fixpoint append_ok (g : bool) (b : N) (es : list entry) (l : list entry) : bool :=
+  match es with
+  | [] => true
+  | e :: r =>
+      if N.ltb (llen l) (eidx e) then
+        (if N.eqb (eidx e) (llen l + 1) || negb g then append_ok g b r (l ++ [e]) else false)
+      else match lookup b l (eidx e) with
+           | Some x => if N.eqb (eterm x) (eterm e) then append_ok g b r l
+                       else append_ok g b r (firstn (N.to_nat (eidx e - 1)) l ++ [e])
+           | None => append_ok g b r l
+           end
   end.
 
 Definition last_new (prev_i : N) (es : list entry) : N :=
@@ -179,17 +203,19 @@ Definition h_ae (self : N) (nd : node) (t ldr prev_i prev_t : N) (es : list entr
     let log_ok :=
       if N.eqb prev_i 0 then true
       else if N.leb prev_i (llen (log nd1)) then
-        match nth_entry (log nd1) prev_i with Some x => prev_ok ru (eterm x) prev_t | None => true end
+        (* an entry compacted away is treated as consistent *)
+        match lookup (base nd1) (log nd1) prev_i with Some x => prev_ok ru (eterm x) prev_t | None => true end
       else false in
     if log_ok then
-      let l' := append_entries es (log nd1) in
+      let l' := append_entries (gap_refused ru) (base nd1) es (log nd1) in
+      let succ := append_ok (gap_refused ru) (base nd1) es (log nd1) in
       let ln := last_new prev_i es in
       let mi := follower_ack ru prev_i ln (llen l') in
       let c' := if N.ltb (commit nd1) lc then follower_commit ru lc (commit nd1) prev_i ln (llen l') else commit nd1 in
-      (Node (term nd1) (voted nd1) Follower (votes nd1) l' c' (in_prevote nd1) (prevotes nd1) (lvs nd1),
-       AER (term nd1) true self mi)
+      (Node (term nd1) (voted nd1) Follower (votes nd1) l' c' (in_prevote nd1) (prevotes nd1) (lvs nd1) (fin nd1) (base nd1),
+       AER (term nd1) succ self mi)
     else
-      (Node (term nd1) (voted nd1) Follower (votes nd1) (log nd1) (commit nd1) (in_prevote nd1) (prevotes nd1) (lvs nd1),
+      (Node (term nd1) (voted nd1) Follower (votes nd1) (log nd1) (commit nd1) (in_prevote nd1) (prevotes nd1) (lvs nd1) (fin nd1) (base nd1),
        AER (term nd1) false self 0)
   else (nd1, AER (term nd1) false self 0).
 
@@ -201,9 +227,9 @@ Definition try_advance (nd : node) : node :=
       let qi := N.to_nat (commit_pick ru (llen ms) (quorum cfg)) in
       let nc := nth qi ms 0 in
       if N.ltb (commit nd) nc then
-        match nth_entry (log nd) nc with
+        match lookup (base nd) (log nd) nc with
         | Some x => if commit_term_ok ru (eterm x) (term nd)
-                    then Node (term nd) (voted nd) (rl nd) (votes nd) (log nd) nc (in_prevote nd) (prevotes nd) (lvs nd)
+                    then Node (term nd) (voted nd) (rl nd) (votes nd) (log nd) nc (in_prevote nd) (prevotes nd) (lvs nd) (fin nd) (base nd)
                     else nd
         | None => nd
         end
@@ -219,13 +245,13 @@ Definition h_aer (self : N) (nd : node) (from t : N) (succ : bool) (mi : N) : no
   | Leader =>
       if N.ltb (term nd) t then
         let nd1 := step_down nd t in
-        Node (term nd1) (voted nd1) (rl nd1) (votes nd1) (log nd1) (commit nd1) (in_prevote nd1) (prevotes nd1) None
+        Node (term nd1) (voted nd1) (rl nd1) (votes nd1) (log nd1) (commit nd1) (in_prevote nd1) (prevotes nd1) None (fin nd1) (base nd1)
       else if stale_ack_ignored ru && N.ltb t (term nd) then nd
       else match lvs nd with
            | Some ls =>
                if succ then
                  let ls' := LV (aset (next_index ls) from (mi + 1)) (aset (match_index ls) from mi) (adel (backoff ls) from) in
-                 try_advance (Node (term nd) (voted nd) (rl nd) (votes nd) (log nd) (commit nd) (in_prevote nd) (prevotes nd) (Some ls'))
+                 try_advance (Node (term nd) (voted nd) (rl nd) (votes nd) (log nd) (commit nd) (in_prevote nd) (prevotes nd) (Some ls') (fin nd) (base nd))
                else
                  let next := match aget (next_index ls) from with Some x => x | None => 1 end in
                  let fails := match aget (backoff ls) from with Some x => x | None => 0 end in
@@ -234,22 +260,29 @@ Definition h_aer (self : N) (nd : node) (from t : N) (succ : bool) (mi : N) : no
                             else 1 in
                  let next' := if N.ltb 0 dec then (if N.ltb (next - dec) 1 then 1 else next - dec) else next in
                  let ls' := LV (aset (next_index ls) from next') (match_index ls) (aset (backoff ls) from (fails + 1)) in
-                 Node (term nd) (voted nd) (rl nd) (votes nd) (log nd) (commit nd) (in_prevote nd) (prevotes nd) (Some ls')
+                 Node (term nd) (voted nd) (rl nd) (votes nd) (log nd) (commit nd) (in_prevote nd) (prevotes nd) (Some ls') (fin nd) (base nd)
            | None => nd
            end
   | _ => nd
   end.
 
-(* get_entries_for_follower + send_heartbeats *)
+(* get_entries_for_follower + send_heartbeats.  Entries travel only with a prev entry the leader can still
+   name: when the entry before next_index was compacted away, nothing is sent (prev 0, no entries). *)
 Definition entries_for (nd : node) (peer : N) : N * N * list entry :=
   let next := match lvs nd with
               | Some ls => match aget (next_index ls) peer with Some x => x | None => 1 end
               | None => 1 end in
-  let '(pi, pt) := if N.leb next 1 then (0, 0)
-                   else match nth_entry (log nd) (next - 1) with
-                        | Some e => (eidx e, eterm e) | None => (0, 0) end in
-  let es := match nth_entry (log nd) next with
-            | Some _ => skipn (N.to_nat (next - 1)) (log nd) | None => [] end in
+  let prev := if N.leb next 1 then Some (0, 0)
+              else match lookup (base nd) (log nd) (next - 1) with
+                   | Some e => Some (eidx e, eterm e) | None => None end in
+  let es := match prev with
+            | Some _ => match lookup (base nd) (log nd) next with
+                        | Some _ => skipn (N.to_nat (next - 1)) (log nd) | None => [] end
+            | None => if entries_need_prev ru then []
+                      else match lookup (base nd) (log nd) next with
+                           | Some _ => skipn (N.to_nat (next - 1)) (log nd) | None => [] end
+            end in
+  let '(pi, pt) := match prev with Some p => p | None => (0, 0) end in
   (pi, pt, es).
 Definition heartbeat_msgs (self : N) (nd : node) : list (N * msg) :=
   match rl nd with
@@ -263,13 +296,27 @@ Definition propose (nd : node) (payload : N) (ok : bool) : node :=
   match rl nd with
   | Leader => if ok then Node (term nd) (voted nd) (rl nd) (votes nd)
                               (log nd ++ [E (term nd) (llen (log nd) + 1) payload])
-                              (commit nd) (in_prevote nd) (prevotes nd) (lvs nd)
+                              (commit nd) (in_prevote nd) (prevotes nd) (lvs nd) (fin nd) (base nd)
               else nd
   | _ => nd
   end.
 
-(* crash + restart from the WAL: term, vote and log survive; everything else is reset *)
-Definition restart (nd : node) : node := Node (term nd) (voted nd) Follower [] (log nd) 0 false [] None.
+(* crash + restart from the WAL: term, vote and the WHOLE log survive (the WAL is not compacted); everything
+   else, finalized height and log base included, is reset *)
+Definition restart (nd : node) : node := Node (term nd) (voted nd) Follower [] (log nd) 0 false [] None 0 0.
+
+(* finalize_to: the application marks committed entries as finalized *)
+Definition finalize (nd : node) (h : N) : node :=
+  if N.leb h (commit nd)
+  then Node (term nd) (voted nd) (rl nd) (votes nd) (log nd) (commit nd) (in_prevote nd) (prevotes nd) (lvs nd) h (base nd)
+  else nd.
+(* create_snapshot + truncate_log (perform_compaction): drop the log up to finalized - trailing, provided the
+   snapshot can be taken (finalized entry still in the array) and at least one entry stays *)
+Definition compact (nd : node) : node :=
+  let cut := fin nd - trailing cfg in
+  if N.ltb (base nd) (fin nd) && N.leb (fin nd) (llen (log nd)) && N.ltb (base nd) cut && N.ltb cut (llen (log nd))
+  then Node (term nd) (voted nd) (rl nd) (votes nd) (log nd) (commit nd) (in_prevote nd) (prevotes nd) (lvs nd) (fin nd) cut
+  else nd.
 
 (* ---------------- the cluster ---------------- *)
 (* envelopes: (src, dst, message); the pool only grows: delivering a message does not remove it
@@ -284,8 +331,10 @@ Inductive gop :=
 | GPropose (i payload : N) (ok : bool)
 | GDeliver (k : N) (ok : bool)   (* deliver pool message k to its destination; ok = refusal oracle *)
 | GRestart (i : N)
-| GTimeoutNow (i : N) (ok : bool). (* node i accepts a TimeoutNow (leadership transfer): start_election at once,
+| GTimeoutNow (i : N) (ok : bool) (* node i accepts a TimeoutNow (leadership transfer): start_election at once,
                                      no pre-vote, no broadcast; ok = sender is the believed leader and terms match *)
+| GFinalize (i h : N)            (* finalize_to(h) *)
+| GCompact (i : N).              (* create_snapshot + truncate_log *)
 
 Definition nth_node (ns : list node) (i : N) : node := nth (N.to_nat i) ns init_node.
 Fixpoint set_nth_node (ns : list node) (i : nat) (x : node) : list node :=
@@ -338,6 +387,10 @@ Definition gstep (s : sys) (o : gop) : sys * N :=
   | GTimeoutNow i ok =>
       if valid_id i then (if ok then (upd_node s i (start_election i (nth_node (nodes s) i)) [], i) else (s, i))
       else (s, i)
+  | GFinalize i h =>
+      if valid_id i then (upd_node s i (finalize (nth_node (nodes s) i) h) [], i) else (s, i)
+  | GCompact i =>
+      if valid_id i then (upd_node s i (compact (nth_node (nodes s) i)) [], i) else (s, i)
   end.
 
 Definition init_sys : sys := Sys (map (fun _ => init_node) (N_seq (n_nodes cfg))) [].
@@ -351,7 +404,7 @@ Definition std_vote_log_ok (lli llt mli mlt : N) (gok : bool) : bool :=
 
 (* the two acknowledgement rules that have existed in the source *)
 Definition rules_whole_log : rules :=       (* before the repair: whole local length *)
-  Rules (fun _ _ len => len) (fun lc _ _ _ len => N.min lc len) false std_vote_log_ok N.eqb N.sub N.eqb.
+  Rules (fun _ _ len => len) (fun lc _ _ _ len => N.min lc len) false std_vote_log_ok N.eqb N.sub N.eqb false false.
 Definition rules_verified : rules :=        (* after: only the prefix this request verified *)
   Rules (fun _ ln len => N.min ln len) (fun lc c _ ln len => N.max c (N.min lc (N.min ln len))) true
-        std_vote_log_ok N.eqb N.sub N.eqb.
+        std_vote_log_ok N.eqb N.sub N.eqb true true.
